@@ -2,6 +2,9 @@ package hx
 
 import (
 	"math"
+	"regexp"
+	"strings"
+	"unicode/utf8"
 
 	"pgregory.net/rapid"
 )
@@ -75,6 +78,34 @@ func strConstFor(t *rapid.T, c Col) string {
 		}
 	}
 	return GenStr(t, false)
+}
+
+// likePatternFor draws one of the fixed patterns or derives one from a value of the column: the value in
+// another case (so that ilike has to map letters whose other case has another byte length) with % at
+// either end. Derived patterns stay within the plain-pattern route (valid UTF-8, no regexp metacharacter).
+func likePatternFor(t *rapid.T, c Col) string {
+	if rapid.IntRange(0, 2).Draw(t, "patternfromcol") > 0 {
+		return rapid.SampledFrom(likePatterns).Draw(t, "pattern")
+	}
+	p := strConstFor(t, c)
+	switch rapid.IntRange(0, 2).Draw(t, "patterncase") {
+	case 1:
+		p = strings.ToUpper(p)
+	case 2:
+		p = strings.ToLower(p)
+	}
+	if !utf8.ValidString(p) || regexp.QuoteMeta(p) != p || strings.Contains(p, "%") {
+		return rapid.SampledFrom(likePatterns).Draw(t, "pattern")
+	}
+	switch rapid.IntRange(0, 5).Draw(t, "patternends") {
+	case 0:
+		p = "%" + p
+	case 1:
+		p = p + "%"
+	case 2:
+		p = "%" + p + "%"
+	}
+	return p
 }
 
 // GenLeaf draws a well-typed leaf over the columns of tab.
@@ -176,7 +207,7 @@ func GenLeaf(t *rapid.T, tab Table, o ClauseOpt) Clause {
 		case pick == 5:
 			l = NoArg(c.Name, rapid.SampledFrom([]string{"isnull", "isnotnull"}).Draw(t, "comp"))
 		case pick == 6 && !o.NoLike:
-			l = StrConst(c.Name, rapid.SampledFrom([]string{"like", "ilike"}).Draw(t, "comp"), rapid.SampledFrom(likePatterns).Draw(t, "pattern"))
+			l = StrConst(c.Name, rapid.SampledFrom([]string{"like", "ilike"}).Draw(t, "comp"), likePatternFor(t, c))
 		case pick == 7 && !o.NoFuncs:
 			l = Clause{Op: "leaf", Col: c.Name, Comp: "fn1", Arg: "none", Fn: rapid.IntRange(0, len(PredFns)-1).Draw(t, "fn")}
 		case pick == 8 && !o.NoFuncs:
